@@ -202,6 +202,17 @@ func ruleIfaceTypes(p *Prog, r *Report) {
 				if user {
 					desc += " (+ caller-supplied values, refused or accepted as the factory documents)"
 				}
+				if unknown != "" && len(bad) == 0 && fn.Pkg != nil && fn.Pkg.Pkg.Name() == "hsms" {
+					// the data flow could not be followed (a closure, a shared
+					// helper with an unreachable default): evaluate the item
+					// decoder on an item of every format this factory builds and
+					// look at the dynamic types that actually arrive
+					if names, bad2, ok := decoderProducedTypes(p, callee.Name(), accepted[callee.Name()]); ok {
+						unknown = ""
+						bad = bad2
+						desc = strings.Join(names, ", ") + " (evaluated from the item decoder for every format built by " + callee.Name() + ")"
+					}
+				}
 				switch {
 				case len(bad) > 0:
 					r.bad(rule, key, p.Pos(call.Pos()), FnName(fn)+" "+strings.Join(bad, "; "))
@@ -246,6 +257,39 @@ func ifaceProducers(p *Prog, s ssa.Value) (prods map[string]bool, user bool, unk
 		}
 		via, seenV = saved, savedSeen
 		return true
+	}
+	// closureResults: a call of a function value that is a parameter of the
+	// helper the walk is in - what the closure the caller passed returns
+	closureResults := func(c *ssa.Call, d int) bool {
+		prm, ok := c.Common().Value.(*ssa.Parameter)
+		if !ok || via == nil || via.Common().StaticCallee() != prm.Parent() {
+			return false
+		}
+		for i, q := range prm.Parent().Params {
+			if q != prm || i >= len(via.Common().Args) {
+				continue
+			}
+			var f *ssa.Function
+			switch a := via0Arg(via, i).(type) {
+			case *ssa.MakeClosure:
+				f, _ = a.Fn.(*ssa.Function)
+			case *ssa.Function:
+				f = a
+			}
+			if f == nil || f.Blocks == nil {
+				return false
+			}
+			saved, savedSeen := via, seenV
+			via, seenV = nil, map[ssa.Value]bool{}
+			for _, b := range f.Blocks {
+				if ret, ok := b.Instrs[len(b.Instrs)-1].(*ssa.Return); ok && len(ret.Results) > 0 {
+					elem(ret.Results[0], d+1)
+				}
+			}
+			via, seenV = saved, savedSeen
+			return true
+		}
+		return false
 	}
 	elem = func(v ssa.Value, d int) {
 		if v == nil || seenV[v] || d > 12 {
@@ -295,7 +339,7 @@ func ifaceProducers(p *Prog, s ssa.Value) (prods map[string]bool, user bool, unk
 		case *ssa.Call:
 			if nt, ok := x.Type().(*types.Named); ok && nt.Obj().Name() == "ItemNode" {
 				prods["ItemNode"] = true
-			} else if !results(x, 0, d) {
+			} else if !results(x, 0, d) && !closureResults(x, d) {
 				unknown = "result of " + x.String()
 			}
 		case *ssa.UnOp:
@@ -380,6 +424,22 @@ func ifaceProducers(p *Prog, s ssa.Value) (prods map[string]bool, user bool, unk
 		}
 	}
 	var slice func(v ssa.Value, d int)
+	// sliceResults: the slice a helper of the module returns at result idx
+	sliceResults := func(c *ssa.Call, idx int, d int) bool {
+		g := c.Common().StaticCallee()
+		if g == nil || !InModule(g) || g.Blocks == nil || idx >= g.Signature.Results().Len() {
+			return false
+		}
+		saved, savedSeen := via, seenS
+		via, seenS = c, map[ssa.Value]bool{}
+		for _, b := range g.Blocks {
+			if ret, ok := b.Instrs[len(b.Instrs)-1].(*ssa.Return); ok {
+				slice(ret.Results[idx], d+1)
+			}
+		}
+		via, seenS = saved, savedSeen
+		return true
+	}
 	slice = func(v ssa.Value, d int) {
 		if v == nil || seenS[v] || d > 16 {
 			return
@@ -413,9 +473,27 @@ func ifaceProducers(p *Prog, s ssa.Value) (prods map[string]bool, user bool, unk
 				slice(x.Common().Args[1], d+1)
 				return
 			}
-			unknown = "slice from " + x.String()
+			if !sliceResults(x, 0, d) {
+				unknown = "slice from " + x.String()
+			}
+		case *ssa.Extract:
+			if c, ok := x.Tuple.(*ssa.Call); !ok || !sliceResults(c, x.Index, d) {
+				unknown = "slice " + v.String()
+			}
 		case *ssa.Const:
 		case *ssa.Parameter:
+			if InModule(x.Parent()) && !exported(x.Parent()) && via != nil && via.Common().StaticCallee() == x.Parent() {
+				// a private helper's parameter: the slice its caller passes
+				for i, prm := range x.Parent().Params {
+					if prm == x && i < len(via.Common().Args) {
+						saved := via
+						via = nil
+						slice(via0Arg(saved, i), d+1)
+						via = saved
+						return
+					}
+				}
+			}
 			user = true
 		default:
 			unknown = "slice " + v.String()
@@ -969,4 +1047,50 @@ func madeWithLength(in *Interp, path string) bool {
 		}
 	}
 	return false
+}
+
+// via0Arg returns argument i of a call (receiver first for methods), looking
+// through a ChangeType around a function value.
+func via0Arg(c *ssa.Call, i int) ssa.Value {
+	a := c.Common().Args[i]
+	if ct, ok := a.(*ssa.ChangeType); ok {
+		return ct.X
+	}
+	return a
+}
+
+// decoderProducedTypes evaluates the hsms item decoder on an item of every
+// format the factory builds and returns the dynamic types of the elements it
+// hands over.
+func decoderProducedTypes(p *Prog, factory string, accepted map[string]bool) (names, bad []string, ok bool) {
+	seen := map[string]bool{}
+	n := 0
+	for _, f := range e5Formats {
+		if f.Factory != factory || f.Node == "ListNode" || f.Node == "ASCIINode" {
+			continue
+		}
+		_, _, elems, okRun := decodeItemRun(p, f.Code, int64(f.Width), 2)
+		if !okRun || len(elems) != 2 {
+			return nil, nil, false
+		}
+		n++
+		for _, e := range elems {
+			if e.K != KIface {
+				return nil, nil, false
+			}
+			tn := types.TypeString(e.T, nil)
+			if b, isBasic := e.T.Underlying().(*types.Basic); isBasic {
+				tn = types.Typ[b.Kind()].Name()
+			}
+			if !seen[tn] {
+				seen[tn] = true
+				names = append(names, tn)
+				if !accepted[tn] {
+					bad = append(bad, fmt.Sprintf("hands %s a value of dynamic type %s (format %s), which that factory refuses", factory, tn, f.Key))
+				}
+			}
+		}
+	}
+	sort.Strings(names)
+	return names, bad, n > 0
 }
